@@ -152,6 +152,40 @@ func runC06(c *Collector, r *Rng, thorough bool) {
 			followUps(c, r, cs.kind, in, &d)
 		}
 	}
+	// every registered header label with a value of every CBOR kind, in either bucket, alone and inside a
+	// message: the decoders convert some governed values to Go types and must refuse, not panic, on any other kind
+	{
+		vals := []*W{wInt(1, -1), wInt(-7, -1), wBstr([]byte{1, 2}, -1), wBstr(nil, -1), wTstr("a/b", -1), wTstr("", -1),
+			wArr(-1), wArr(-1, wInt(1, -1)), wArr(-1, wTstr("x", -1), wBstr([]byte{1}, -1)), wMap(-1), wMap(-1, wInt(1, -1), wTstr("iss", -1)),
+			wNull(), wUndef(), wBool(true), wFloat64(1.5), wTag(1, -1, wInt(0, -1)), wTag(2, -1, wBstr([]byte{1, 0, 0, 0, 0, 0, 0, 0, 0}, -1)),
+			wArr(-1, wBstr(nil, -1), wMap(-1), wBstr([]byte{1}, -1)), &W{Maj: 0, Width: 8, Val: 1 << 63}}
+		for _, l := range []int64{1, 2, 3, 4, 5, 6, 7, 8, 9, 10, 11, 12, 13, 14, 15, 16, 32, 33, 34, 35, 258, 259, 260, -1, 99} {
+			for vi, v := range vals {
+				if !thorough && (int(l)+vi)%2 != 0 && l != 15 && l != 1 && l != 2 {
+					continue
+				}
+				m := wMap(-1, wInt(l, -1), v.Clone(), wInt(4, -1), wBstr([]byte("k"), -1))
+				if l == 4 {
+					m = wMap(-1, wInt(l, -1), v.Clone())
+				}
+				pb := wBstr(m.Ser(), -1)
+				for _, cs := range []struct {
+					kind string
+					in   []byte
+				}{
+					{"DProt", pb.Ser()},
+					{"DUnprot", m.Ser()},
+					{"DSign1", wTag(18, -1, wArr(-1, pb, wMap(-1), wBstr([]byte("p"), -1), wBstr([]byte{1}, -1))).Ser()},
+					{"DSignature", wArr(-1, wBstr(nil, -1), m, wBstr([]byte{1}, -1)).Ser()},
+				} {
+					d := timed(cs.kind, cs.in)
+					if d.err == nil && !d.paniced {
+						followUps(c, r, cs.kind, cs.in, &d)
+					}
+				}
+			}
+		}
+	}
 	// hostile sizes: huge declared lengths / counts must be refused promptly
 	for _, in := range [][]byte{
 		{0xd2, 0x84, 0x5b, 0x7f, 0xff, 0xff, 0xff, 0xff, 0xff, 0xff, 0xff},
